@@ -117,7 +117,7 @@ Proof.
   induction kids as [|k rest IH]; intros m; [exact I|]. cbn [add_all].
   apply (sp_bind hl7_only TT); [|intros; apply IH].
   destruct (node_str_name k) as [n|]; [|destruct (is_strict lvl); exact I].
-  unfold child_admission. apply (sp_bind hl7_only TT).
+  unfold child_acceptance. apply (sp_bind hl7_only TT).
   - unfold find_child_check.
     repeat match goal with |- sp _ _ (if ?b then _ else _) => destruct b end; exact I.
   - intros _ _. destruct (child_card_ok _ _ _ _); exact I.
